@@ -83,6 +83,9 @@ func payload(r *mon.Rand, idx uint64, exhaustive bool) string {
 		}
 		p = sb.String()
 	}
+	if r.Chance(24) {
+		return "" // the empty name / value
+	}
 	switch r.Intn(4) {
 	case 0:
 		return p
@@ -373,7 +376,9 @@ func headOf(b []byte) []byte {
 	return b
 }
 
-var automatic = map[string]bool{"host": true, "user-agent": true, "content-type": true, "content-length": true, "transfer-encoding": true, "connection": true, "server": true, "date": true, "trailer": true}
+// (last-modified, accept-ranges, content-range: written by the file server behind
+// FileAttachment when its path names something that exists, e.g. "" = the working directory)
+var automatic = map[string]bool{"last-modified": true, "accept-ranges": true, "content-range": true, "host": true, "user-agent": true, "content-type": true, "content-length": true, "transfer-encoding": true, "connection": true, "server": true, "date": true, "trailer": true}
 
 // checkSection applies the strict line oracle.  startLine says whether the first line
 // is a request/status line.
